@@ -329,3 +329,83 @@ Proof.
     destruct (length t) as [|k]; cbn [qpn Nat.sub]; [change (inject_Z (Z.of_nat 0)) with 0; ring|].
     rewrite Nat.sub_0_r. rewrite !inject_S. ring.
 Qed.
+
+(* ================================================================== 6. |V| N(V,R) = |R| |V|^(|V|-|R|) *)
+Lemma filter_mem_length (R0 V : list nat) : NoDup R0 -> NoDup V -> incl R0 V ->
+  length (filter (fun v => nmem v R0) V) = length R0.
+Proof.
+  intros HR HV Hincl. apply Nat.le_antisymm.
+  - apply NoDup_incl_length; [apply NoDup_filter, HV|]. intros v Hv. apply filter_In in Hv. apply nmem_In, Hv.
+  - apply NoDup_incl_length; [exact HR|]. intros v Hv. apply filter_In. split; [apply Hincl, Hv | apply nmem_In, Hv].
+Qed.
+
+Theorem forest_count : forall n V R, length V = n -> NoDup V -> NoDup R -> incl R V ->
+  inject_Z (Z.of_nat (length V)) * NQ V R ==
+  inject_Z (Z.of_nat (length R)) * qpn (inject_Z (Z.of_nat (length V))) (length V - length R).
+Proof.
+  induction n as [|m IH]; intros V R Hlen HV HR Hincl.
+  - destruct V; [|discriminate]. destruct R as [|r R]; [|destruct (Hincl r (or_introl eq_refl))]. cbn. ring.
+  - destruct R as [|rho R0].
+    + rewrite NQ_no_root by (intros ->; discriminate). cbn [length]. change (inject_Z (Z.of_nat 0)) with 0. ring.
+    + assert (Hrho : In rho V) by (apply Hincl; left; reflexivity).
+      inversion HR as [|? ? Hnr HR0]; subst.
+      set (V' := filter (neqb rho) V).
+      assert (HV'len : length V' = m) by (pose proof (filter_neqb_length rho V HV Hrho); fold V' in H; lia).
+      assert (HV' : NoDup V') by (apply NoDup_filter, HV).
+      assert (HR0V : incl R0 V) by (intros r Hr; apply Hincl; right; exact Hr).
+      assert (HR0V' : incl R0 V').
+      { intros r Hr. apply (In_V' rho V r). split; [apply HR0V, Hr | intros ->; contradiction]. }
+      set (r0 := length R0). assert (Hr0 : (r0 <= m)%nat) by (rewrite <- HV'len; apply NoDup_incl_length; assumption).
+      set (Mq := inject_Z (Z.of_nat m)). set (L := (m - r0)%nat).
+      set (h := fun j => inject_Z (Z.of_nat (r0 + j)) * qpn Mq (L - j)).
+      set (b := fun v => nmem v R0).
+      (* the recurrence, each summand by the induction hypothesis *)
+      assert (Hsum : Mq * NQ V (rho :: R0) ==
+                     inject_Z (Z.of_nat r0) * qpn (1 + Mq) L + inject_Z (Z.of_nat L) * qpn (1 + Mq) (L - 1)).
+      { rewrite (NQ_step rho V R0 HV Hrho HR HR0V). fold V'. rewrite <- qsum_scale.
+        rewrite (qsum_map_ext _ (fun J => h (length J) * bq (nilb (filter b J)))).
+        - rewrite (avoid_sum b V' h).
+          assert (HL : length (filter (fun a => negb (b a)) V') = L).
+          { pose proof (filter_partition_length b V') as P. unfold b in P at 1.
+            rewrite (filter_mem_length R0 V' HR0 HV' HR0V') in P. fold r0 in P. unfold L. lia. }
+          unfold h. rewrite <- HL. apply subset_binomial.
+        - intros J HJ. apply subseqs_spec in HJ.
+          assert (HJnd : NoDup J) by (apply (subl_NoDup _ _ HJ), HV').
+          assert (HJV' : incl J V') by (apply subl_incl, HJ).
+          assert (HRJ : incl (R0 ++ J) V') by (intros v Hv; apply in_app_or in Hv; destruct Hv; auto).
+          destruct (filter b J) as [|j l] eqn:Eb.
+          + (* disjoint: the induction hypothesis applies *)
+            assert (Hdisj : forall x, In x R0 -> ~ In x J).
+            { intros x Hx HxJ. assert (Hin : In x (filter b J)) by (apply filter_In; split; [exact HxJ | apply nmem_In, Hx]).
+              rewrite Eb in Hin. destruct Hin. }
+            pose proof (IH V' (R0 ++ J) HV'len HV' (NoDup_app_intro R0 J HR0 HJnd Hdisj) HRJ) as HI.
+            rewrite HV'len, app_length in HI. fold Mq in HI. fold r0 in HI.
+            rewrite HI. unfold h, bq, nilb, L. replace (m - (r0 + length J))%nat with (m - r0 - length J)%nat by lia. ring.
+          + (* a repeated root: no forest *)
+            assert (Hj : In j (filter b J)) by (rewrite Eb; left; reflexivity).
+            apply filter_In in Hj. destruct Hj as [HjJ HjR]. apply nmem_In in HjR.
+            rewrite (NQ_repeated_root V' R0 J j HV' HRJ HjR HjJ). unfold bq, nilb. ring. }
+      (* arithmetic *)
+      cbn [length]. rewrite Hlen. fold r0.
+      replace (S m - S r0)%nat with L by (unfold L; lia).
+      assert (HN : inject_Z (Z.of_nat (S m)) == 1 + Mq) by (unfold Mq; rewrite inject_S; ring).
+      rewrite (qpn_comp _ _ L HN), HN, (inject_S r0).
+      destruct m as [|m'].
+      * (* one vertex *)
+        assert (r0 = 0%nat) by lia. assert (L = 0%nat) by (unfold L; lia).
+        assert (HR0nil : R0 = []) by (destruct R0; [reflexivity | discriminate]).
+        rewrite (NQ_step rho V R0 HV Hrho HR HR0V). fold V'.
+        assert (HV'nil : V' = []) by (destruct V'; [reflexivity | discriminate]).
+        rewrite HV'nil, HR0nil, H, H0. unfold Mq. cbn. ring.
+      * assert (HM : ~ Mq == 0).
+        { unfold Mq. intros E. apply (inject_Z_injective (Z.of_nat (S m')) 0) in E. lia. }
+        apply (Qmult_inj_l _ _ Mq HM).
+        transitivity ((1 + Mq) * (Mq * NQ V (rho :: R0))); [ring|]. rewrite Hsum.
+        assert (HmL : Mq == inject_Z (Z.of_nat r0) + inject_Z (Z.of_nat L)).
+        { unfold Mq, L. rewrite <- inject_Z_plus, <- Nat2Z.inj_add. replace (r0 + (S m' - r0))%nat with (S m') by lia. reflexivity. }
+        destruct L as [|l].
+        -- cbn [qpn Nat.sub]. change (inject_Z (Z.of_nat 0)) with 0 in *. rewrite HmL. ring.
+        -- cbn [qpn Nat.sub]. rewrite Nat.sub_0_r.
+           assert (HL' : inject_Z (Z.of_nat (S l)) == Mq - inject_Z (Z.of_nat r0)) by (rewrite HmL; ring).
+           rewrite HL'. ring.
+Qed.
